@@ -1784,6 +1784,7 @@ func main() {
 	} else {
 		concurrentDifferentModules(r, 8)
 	}
+	crossDeviceStage()
 	if readerVariant["repaired"] > 0 && readerVariant["as-is"] > 0 {
 		violate("correspondence", "C13:reader-variant-mixed", fmt.Sprintf("the real reader matches the as-is model on %d and the repaired model on %d of the planted entries that distinguish them", readerVariant["as-is"], readerVariant["repaired"]), nil, nil, nil)
 	}
